@@ -82,7 +82,8 @@ def execute(case):
             if case["order"]:
                 labels.append("permuted")
             disk = DiskFile(granule_fill_order=list(case["order"]) if case["order"] else None)
-            disk.add_files([filegen.to_coco(f, d) for f, d in zip(files, datas)])
+            cocos = [filegen.to_coco(f, d) for f, d in zip(files, datas)]
+            disk.add_files(cocos)
             image = list(disk.get_buffer())
         else:
             rnd = random.Random(case["perm"])
@@ -126,4 +127,17 @@ def execute(case):
         for idx, (r, f, d) in enumerate(zip(ref, files, datas)):
             if bytes(r["data"]) != d or (f["ftype"] == 2 and (r["load"], r["exec"]) != (f["load"], f["exec"])):
                 return viol("independent reader disagrees on file {}".format(idx), fid="C07:differential", labels=labels)
+        # a list may hold the same file twice, and the same file objects may go onto a second disk: written again
+        # (the first of them twice when there is room), they must list as before
+        twice = used + filegen.stream_len(files[0]) // 2304 + 1 <= 68
+        try:
+            again = DiskFile(granule_fill_order=list(case["order"]) if case["order"] else None)
+            again.add_files(cocos + (cocos[:1] if twice else []))
+            bad = filegen.disk_listing_mismatch(DiskFile(buffer=list(again.get_buffer())).list_files(),
+                                                files + (files[:1] if twice else []), datas + (datas[:1] if twice else []))
+        except Exception as err:
+            bad = "raised {}: {}".format(type(err).__name__, err)
+        if bad:
+            return viol("the same file objects written to a second disk{}: {}".format(", the first of them twice" if twice else "", bad),
+                        fid="C07:reused-objects", labels=labels)
     return ok(labels=labels, nontrivial=bool(set(labels) & {"multi_granule", "edge_length", "permuted", "non_adjacent"}))
